@@ -15,7 +15,7 @@ eng = Eng(case["config"], ctx, props={prop})
 w = eng.world
 st = {"nw": 0, "nr": 0}
 orig = eng._after_event
-def after():
+def after(*_a, **_kw):
     for (s, t, c, f) in w.write_log[st["nw"]:]:
         k, v, corr = struct.unpack(">hhi", f[:8])
         print("    t=%.4f write conn%d node=%s api=%d v%d corr=%d len=%d" % (w.now, c.cid, c.userdata.get("node"), k, v, corr, len(f)))
@@ -26,7 +26,7 @@ def after():
             if "_dbg" not in info and cl.delivered(info):
                 info["_dbg"] = 1
                 print("    t=%.4f reply delivered api=%s corr=%s %.200r" % (w.now, info.get("api"), info.get("corr"), {k: v for k, v in info.items() if k in ("fetch", "offsets_answer", "offsets", "commit", "error")}))
-    orig()
+    orig(*_a, **_kw)
 eng._after_event = after
 try:
     for step in case["trace"] + [["<finish>"]]:
